@@ -1245,7 +1245,7 @@ func doWalk(cs *connState, ref *fidRef, names []string, getattr bool) (qids []QI
 	// validate anything since this is always permitted.
 	if len(names) == 0 {
 		var sf File // Temporary.
-		if err := ref.maybeParent().safelyRead(func() (err error) {
+		if err := ref.safelyReadParent(func() (err error) {
 			// The clone is a read-class call on ref's own path, not only
 			// on its parent's: exclude write-class calls there as well
 			// (parent before child; the root is its own parent).
